@@ -179,6 +179,12 @@ def run(tier="quick", seed=1, work=None, replay=None, focus="C18", ncases=None):
                 # ---- K: real cache / database contents vs the model
                 dis = []
                 cp = os.path.join(A, "dst", ".sy-dir-cache.json")
+                if "--use-cache" in mech and ra_ != 0 and os.path.exists(cp):
+                    # a run that ends with per-file errors saves its cache all the same: its keys are keys "an earlier saved state" had
+                    try:
+                        cj_ = json.load(open(cp))
+                        if isinstance(cj_, dict) and isinstance(cj_.get("directories"), dict): all_keys |= set(cj_["directories"].keys())
+                    except (ValueError, OSError): pass
                 if "--use-cache" in mech and ra_ == 0 and os.path.exists(cp):
                     try:
                         cj = json.load(open(cp))
